@@ -57,6 +57,13 @@ class RangeDomain:
         self.panics = {}      # (fn path, bb) of a diverging call the abstract execution reached -> {root}
         self.completed = set()   # roots whose abstract execution ran to the end
 
+    def aggregate(self, ex, adt, variant, ops):
+        """observes constructions of the structs whose private fields are being given invariants"""
+        watch = getattr(self, "watch_adts", None)
+        if watch and adt in watch:
+            self.constructed.setdefault(adt, []).append(list(ops))
+        return NotImplemented
+
     def on_write(self, ex, fr, pl, val):
         """observes stores into the watched private integer fields (field-invariant inference)"""
         watch = getattr(self, "watch", None)
@@ -379,6 +386,12 @@ class RangeDomain:
             return Rng(0, 128 if "u128" in fk.i else 64 if ("u64" in fk.i or "usize" in fk.i) else 32 if "u32" in fk.i else 16 if "u16" in fk.i else 8 if "u8" in fk.i else 128)
         if n == "leading_zeros" and len(a) == 1 and isinstance(a[0], int):
             return (128 if "u128" in fk.i else 64 if "u64" in fk.i else 32) - a[0].bit_length()
+        if "alloc::vec::Vec" in d or "alloc::vec::Vec" in fk.i:
+            if n in ("new", "with_capacity") and (not a or n == "with_capacity"):
+                return Tup([])
+            if n == "push" and len(a) == 2 and isinstance(a[0], Tup) and isinstance(args[0], Ref):
+                store_through(ex, args[0], Tup(list(a[0].items) + [a[1] if isinstance(a[1], (int, Rng)) else TOP]))
+                return Tup([])
         if n == "collect" and len(a) == 1 and isinstance(a[0], Iter):
             return Tup([TOP if x is OPAQUE else x for x in a[0].items[a[0].pos:]])
         if n == "len" and len(a) == 1 and isinstance(a[0], Tup) and ("alloc::vec" in d or "slice" in d or "array" in d):
@@ -1135,6 +1148,7 @@ def field_invariants(F):
     inv = {k: (min(c["consts"]), max(c["consts"])) for k, c in live.items()}
     from .roles import int_helper_paths
     int_fns = int_helper_paths(F)
+    F._vec_len_inv = vec_length_invariants(F, int_fns)
     moved = {}
     for _round in range(8):
         F._field_inv = dict(inv)
@@ -1187,6 +1201,65 @@ def field_invariants(F):
     return F._field_inv
 
 
+def vec_length_invariants(F, int_fns):
+    """{(struct path, field index): K} for private Vec fields whose every construction, evaluated by the interval execution of the
+    constructing function (literal loop bounds run concretely), stores a vector of the same length K, and that are never borrowed
+    mutably or assigned afterwards (so the length is fixed for the life of the value)."""
+    cands = {}
+    for ap, adt in F.adts.items():
+        if adt.get("kind") != "Struct" or len(adt.get("variants") or []) != 1:
+            continue
+        for i, f in enumerate(adt["variants"][0].get("fields") or []):
+            if (f.get("ty") or "").strip().startswith(("alloc::vec::Vec<", "crate::alloc::vec::Vec<", "std::vec::Vec<")) and f.get("vis") != "Public":
+                cands[(ap, i)] = {"ok": True, "makers": set()}
+    if not cands:
+        return {}
+    for b in F.fn_bodies():
+        for blk in b.blocks:
+            for st in blk["stmts"]:
+                if st["k"] != "assign":
+                    continue
+                rv = st["rv"]
+                if rv["k"] == "aggregate" and rv.get("agg") == "adt":
+                    for (ap, i), c in cands.items():
+                        if rv.get("adt") == ap and not (b.rec.get("derived") and b.name in ("clone", "clone_from")):
+                            c["makers"].add(b.rec["path"])      # (a derived Clone copies field by field: it preserves whatever holds of the original)
+                for pl, is_mut_borrow in ((st["place"], False), (rv.get("place") if rv["k"] in ("ref", "rawptr") and rv.get("mut") else None, True)):
+                    if not pl or not pl["p"]:
+                        continue
+                    for j, e in enumerate(pl["p"]):
+                        if isinstance(e, dict) and "f" in e:
+                            try:
+                                base = (place_types(b, {"l": pl["l"], "p": pl["p"][:j]})[-1] or "").split("<")[0].strip()
+                            except Exception:
+                                continue
+                            if (base, e["f"]) in cands:
+                                cands[(base, e["f"])]["ok"] = False      # stored into or mutably borrowed after construction
+    out = {}
+    for (ap, i), c in cands.items():
+        if not c["ok"] or not c["makers"]:
+            continue
+        lens = set()
+        for mk in sorted(c["makers"]):
+            dom = RangeDomain(F)
+            dom.watch_adts = {ap}
+            dom.constructed = {}
+            try:
+                run_top(F, dom, F.bodies[mk], lambda d: d in int_fns)
+            except Exception:
+                lens.add(None)
+                break
+            if mk not in dom.completed or not dom.constructed.get(ap):
+                lens.add(None)
+                break
+            for ops in dom.constructed[ap]:
+                v = ops[i] if i < len(ops) else None
+                lens.add(len(v.items) if isinstance(v, Tup) else None)
+        if len(lens) == 1 and None not in lens:
+            out[(ap, i)] = lens.pop()
+    return out
+
+
 def shape_value(F, ty, depth=0):
     """an unknown value of the given type with the structure the type fixes: struct fields, array lengths, integer ranges"""
     ty = (ty or "").strip()
@@ -1210,6 +1283,8 @@ def shape_value(F, ty, depth=0):
             fty = (f.get("ty") or "").strip()
             if (head, i) in inv:
                 fields.append(Rng(*inv[(head, i)]) if inv[(head, i)][0] != inv[(head, i)][1] else inv[(head, i)][0])
+            elif (head, i) in (getattr(F, "_vec_len_inv", None) or {}):
+                fields.append(Tup([TOP] * F._vec_len_inv[(head, i)]))
             elif fty.startswith("&") and depth < 3:
                 hf = Frame(None, [])
                 hf.env[0] = shape_value(F, re.sub(r"^&('[a-z_]+ )?(mut )?", "", fty), depth + 1)
